@@ -366,6 +366,13 @@ pub fn search(suite: &str, a: &[&str]) -> Option<String> {
             if rn != Point::new(x + n * font.character_size.width as i32, y) { return Some(format!("FAIL next position {:?}", rn)); }
             format!("OK {}", nat.map.len())
         }
+        // p_c14_bitmap <font> <digest>: the glyph bitmap of the running library is the committed reference (Proofs/FontGolden.v)
+        "p_c14_bitmap" => {
+            let (font, _) = match find_font(a[0]) { Some(x) => x, None => return Some("FAIL no such font".into()) };
+            let d = bitmap_digest(font);
+            if d.to_string() != a[1] { return Some(format!("FAIL glyph bitmap of {} has digest {} but the committed reference is {}", a[0], d, a[1])); }
+            "OK 1".to_string()
+        }
         // p_c14_codepage <MAPPING> <n: index codepoint index codepoint ...>: the glyph index of every character the
         // standard code page defines (reference = an independent codec table supplied by the generator)
         "p_c14_codepage" => {
